@@ -123,8 +123,11 @@ func (c *Channel) Close() error {
 
 	// Drain any pending requests.
 	go func() { c.wg.Wait(); close(c.rsp) }()
-	for range c.rsp {
-		// discard
+	for next := range c.rsp {
+		// discard, but release the body: nobody else will read this response
+		if next.rsp != nil {
+			next.rsp.Body.Close()
+		}
 	}
 	return nil
 }
